@@ -427,7 +427,7 @@ let run_ksim (dump : Stdlib.String.t list) (hist : Stdlib.String.t) (out : Buffe
              k := set_k_layout l' !k
            | _ -> failwith "bad v token")
         | 'q' ->
-          let idle = k_is_idle !k && zidle () in
+          let idle = k_is_idle_cfg cfg !k && zidle () in
           let (k', block) = k_can_block cfg !k (n_of_int 1) in
           k := k';
           Buffer.add_string out (Printf.sprintf "Q@%d idle=%d block=%d\n" !tick (if idle then 1 else 0) (if block then 1 else 0))
@@ -454,9 +454,9 @@ let run_ksim (dump : Stdlib.String.t list) (hist : Stdlib.String.t) (out : Buffe
     let kv = !k in
     let sc = (match kv.k_scroll with Some _ -> 1 | None -> 0) + (match kv.k_hscroll with Some _ -> 1 | None -> 0) in
     let mv = (match kv.k_mmv with Some _ -> 1 | None -> 0) + (match kv.k_mmh with Some _ -> 1 | None -> 0) in
-    Buffer.add_string out (Printf.sprintf "END tick=%d down=[%s] nstates=%d layer=%d idle=%d scroll=%d move=%d\n"
+    Buffer.add_string out (Printf.sprintf "END tick=%d down=[%s] nstates=%d layer=%d idle=%d scroll=%d move=%d rec=%d\n"
       !tick (String.concat " " (List.map (fun x -> string_of_int (int_of_n x)) kv.k_prev_keys))
-      (List.length kv.k_layout.states) (int_of_n (current_layer kv.k_layout)) (if k_is_idle kv && zidle () then 1 else 0) sc mv)
+      (List.length kv.k_layout.states) (int_of_n (current_layer kv.k_layout)) (if k_is_idle_cfg cfg kv && zidle () then 1 else 0) sc mv (match kv.k_record with Some _ -> 1 | None -> 0))
   with
   | Model_panic s -> Buffer.add_string out (Printf.sprintf "PANIC tick=%d %s\n" !tick s)
   | Model_fuel -> Buffer.add_string out (Printf.sprintf "PANIC tick=%d OUT-OF-FUEL\n" !tick))
